@@ -33,7 +33,7 @@ type k2Batch struct {
 	Pkgs        map[string]string
 	TypeImports []string
 	ConvAnchors []string
-	// values depend on (method name, value index) only: methods of the same name and types in different converters get the same arguments
+	// values depend on (converter name without a trailing On/Off, method name, value index) only: the two converters of a pair get the same arguments
 	ValuesByMethodName bool
 }
 
@@ -195,7 +195,8 @@ func runK2(e *env, name string, batches []*k2Batch) (*k2Result, error) {
 						vg := &k2.ValGen{R: r.Fork(uint64(vi)), Mode: vi, Share: kb.Share}
 						if kb.ValuesByMethodName {
 							h := uint64(14695981039346656037)
-							for _, ch := range m.Name {
+							inst := strings.TrimSuffix(strings.TrimSuffix(k2.ConvKey(oc), "On"), "Off")
+							for _, ch := range inst + "." + m.Name {
 								h = (h ^ uint64(ch)) * 1099511628211
 							}
 							vg.R = rng.New(h ^ uint64(vi)*0x9E3779B97F4A7C15 ^ e.seed)
